@@ -247,3 +247,4 @@ pub fn btree_into_vec<K, V>(m: BTreeMap<K, V>) -> (r: Vec<(K, V)>)
             forall|k: K| m@.contains_key(k) ==> exists|i: int| 0 <= i < r@.len() && (#[trigger] r@[i]).0 == k,
             forall|i: int, j: int| 0 <= i < j < r@.len() ==> (#[trigger] r@[i]).0 != (#[trigger] r@[j]).0
 { unimplemented!() }
+pub assume_specification<T: Clone> [<[T]>::to_vec] (s: &[T]) -> (r: Vec<T>) ensures r@ == s@;
